@@ -644,6 +644,37 @@ pub fn replay_session(run: &Run, case: &J) {
             println!("   info {}", inf.text());
         }
     }
+    // C11's score oracles (the case says which one applies to the searches from `judged_from` on)
+    if let Some(oracle) = case.get("score_oracle").and_then(|x| x.as_str()) {
+        let from = case.get("judged_from").and_then(|x| x.as_i64()).unwrap_or(0) as usize;
+        for (_, infos) in tr.iter().skip(from) {
+            for inf in infos {
+                let ok = match oracle {
+                    "zero" => !inf.score.0 && inf.score.1 == 0,
+                    _ => {
+                        if inf.score.0 {
+                            inf.score.1 > 0
+                        } else {
+                            inf.score.1 >= 0
+                        }
+                    }
+                };
+                if !ok {
+                    run.violation("search-ignores-draw", String::new(), J::Null, format!("depth {} reports {} {} although a draw is {}", inf.depth, if inf.score.0 { "mate" } else { "cp" }, inf.score.1, if oracle == "zero" { "forced" } else { "available" }));
+                    return;
+                }
+            }
+        }
+    }
+}
+
+/// A session case with the score oracle that judged it (used by replays).
+fn with_oracle(mut j: J, oracle: &str, judged_from: usize) -> J {
+    if let J::Obj(kv) = &mut j {
+        kv.push(("score_oracle".to_string(), J::s(oracle)));
+        kv.push(("judged_from".to_string(), J::i(judged_from as i64)));
+    }
+    j
 }
 
 // ------------------------------------------------------------------------------------------------ C11 inside the search
@@ -711,7 +742,7 @@ pub fn c11_search(run: &Run) -> (u64, u64) {
                 for inf in infos {
                     let ok = if inf.score.0 { inf.score.1 > 0 } else { inf.score.1 >= 0 };
                     if !ok {
-                        run.violation("search-ignores-draw", format!("search-ignores-draw|{}", sess.key(si)), sess.json(si), format!("{what}: a move into a drawn position is available, yet depth {} reports {} {} (line {})", inf.depth, if inf.score.0 { "mate" } else { "cp" }, inf.score.1, inf.pv.join(" ")));
+                        run.violation("search-ignores-draw", format!("search-ignores-draw|{}", sess.key(si)), with_oracle(sess.json(si), "nonnegative", 1), format!("{what}: a move into a drawn position is available, yet depth {} reports {} {} (line {})", inf.depth, if inf.score.0 { "mate" } else { "cp" }, inf.score.1, inf.pv.join(" ")));
                         return;
                     }
                 }
@@ -780,7 +811,7 @@ pub fn c11_search(run: &Run) -> (u64, u64) {
         for (si, (_, infos)) in tr.iter().enumerate() {
             for inf in infos {
                 if inf.score.0 || inf.score.1 != 0 {
-                    run.violation("search-ignores-draw", format!("search-ignores-dead-position|{}|{si}", p.to_fen()), sess.json(si), format!("{}: every move is answered by a capture into a dead position, yet depth {} reports {} {} (line {})", p.to_fen(), inf.depth, if inf.score.0 { "mate" } else { "cp" }, inf.score.1, inf.pv.join(" ")));
+                    run.violation("search-ignores-draw", format!("search-ignores-dead-position|{}|{si}", p.to_fen()), with_oracle(sess.json(si), "zero", 0), format!("{}: every move is answered by a capture into a dead position, yet depth {} reports {} {} (line {})", p.to_fen(), inf.depth, if inf.score.0 { "mate" } else { "cp" }, inf.score.1, inf.pv.join(" ")));
                     return;
                 }
             }
